@@ -158,8 +158,8 @@ func init() {
 		k2 := k
 		k2.onlyMsgs = nil
 		k2.ftype = -1
-		return []CaseSet{genRandomStreams(r, "redefinitions-few-types", n, k, "000"), genRandomStreams(r, "redefinitions-any-type", n/2, k2, "000"), genRedefinitions(r, n/2), genUndefinedLocal(r, 400)},
-			"random interleavings of definitions and data over all 16 local types with redefinitions switching message, field list, sizes and byte order; chains of redefinitions of one local type differing from the previous definition in exactly one respect (byte order only, one size, one base type, the message, developer fields, field order, nothing); compressed headers sharing slots 0-3; data records for undefined local types", false
+		return []CaseSet{genRandomStreams(r, "redefinitions-few-types", n, k, "000"), genRandomStreams(r, "redefinitions-any-type", n/2, k2, "000"), genRedefinitions(r, n/2), genUndefinedLocal(r, 400), genChainedUndefined(r, 300)},
+			"random interleavings of definitions and data over all 16 local types with redefinitions switching message, field list, sizes and byte order; chains of redefinitions of one local type differing from the previous definition in exactly one respect (byte order only, one size, one base type, the message, developer fields, field order, nothing); compressed headers sharing slots 0-3; data records for undefined local types; chains in which a later file uses a local type only an earlier file of the chain defined", false
 	}
 	propPost["C13"] = postNoPanic
 
@@ -531,6 +531,45 @@ func genUndefinedLocal(r *rng, n int) CaseSet {
 		}
 		w.data(l, []byte{70})
 		cs.Cases = append(cs.Cases, decCase("decode", "000", "-", "-", frame(w.Bytes(), defaultFrame())))
+	}
+	return cs
+}
+
+// genChainedUndefined: chains in which a later file uses a local type only an earlier file defined.
+// The local message types belong to one file: the later file's data record has no definition.
+func genChainedUndefined(r *rng, n int) CaseSet {
+	cs := CaseSet{Name: "chains-sharing-local-types"}
+	for i := 0; i < n; i++ {
+		l := byte(1 + r.intn(15))
+		if r.chance(30) {
+			l = byte(1 + r.intn(3)) // reachable from compressed headers too
+		}
+		a := &sw{}
+		a.Write(fileIdRecs(4, byte(r.intn(2))))
+		a.define(defn{local: l, arch: byte(r.intn(2)), global: 20, fields: []fdef{{3, 1, 2}}})
+		a.data(l, []byte{byte(60 + r.intn(100))})
+		b := &sw{}
+		b.Write(fileIdRecs(4, byte(r.intn(2))))
+		if r.chance(40) {
+			// an unrelated definition of its own
+			other := byte(1 + r.intn(15))
+			if other != l {
+				b.define(defn{local: other, global: 20, fields: []fdef{{4, 1, 2}}})
+				b.data(other, []byte{80})
+			}
+		}
+		if l < 4 && r.chance(40) {
+			b.cdata(l, byte(r.intn(32)), []byte{120})
+		} else {
+			b.data(l, []byte{120})
+		}
+		fa, fb := frame(a.Bytes(), defaultFrame()), frame(b.Bytes(), defaultFrame())
+		chain := append(append([]byte{}, fa...), fb...)
+		if r.chance(30) {
+			chain = append(append([]byte{}, fa...), chain...)
+		}
+		cs.Cases = append(cs.Cases, decCase("chained", "000", randSched(r), "-", chain))
+		cs.Cases = append(cs.Cases, decCase("decode", "000", "-", "-", fb))
 	}
 	return cs
 }
